@@ -12,6 +12,24 @@ NOTE = ("Trusted: TLC and the CommunityModules JSON reader; the projection of ne
         "evidence file on every run.")
 
 CLAIMED = {
+    "C02": ("CGNetlist gives the denotation Den(program) of the structural Verilog subset (Kleene truth table of every net); "
+            "seeded programs (any statement order, nesting, repeated sub-expressions, constants, blackbox instances with "
+            "connected/unconnected/omitted pins, synthetic-looking and escaped names, comments, blanks) are parsed by the real "
+            "LALR parser and TLC judges the circuit against Den; disagreeing port lists must be rejected. One open known "
+            "finding (net named like an inner expression gate).", "6 C02"),
+    "C03": ("circuit_to_verilog -> verilog_to_circuit (both styles, and to_file/from_file) on TLC-enumerated G1/G2 and random "
+            "circuits with constants, feed-through outputs, flops with unconnected pins, escaped names; TLC judges name, io, "
+            "instances and pin nets, Kleene-equal functions, identical graph for the gate form without constants.", "6 C03"),
+    "C13": ("Every generated block (adder, mux, popcount, half/full adder; widths to 64) is evaluated by TLC from its recorded "
+            "structure on all vectors (<= 11 inputs) or recorded corner + random vectors, against arithmetic on bit sequences "
+            "in the specification; clog2 and int_to_bin/bin_to_int judged on exhaustive small and wide values.", "6 C13"),
+    "C14": ("Programs of the fast parser's documented subset, laid out like the writer with arbitrary non-empty blank runs, the "
+            "writer's own output and bundled c17 netlists are parsed by both parsers; TLC judges identical graphs up to constant "
+            "names, same io / instances / pin nets and Kleene-equal functions. One open known finding (repeated parity "
+            "operands).", "6 C14"),
+    "C15": ("Bench programs (any line order, case, DFF chains, blank variants) are parsed by the real reader and judged by TLC "
+            "against Den(program); circuit_to_bench -> bench_to_circuit round trips on G1/G2/random circuits with constants are "
+            "judged for io and function equality.", "6 C15"),
     "C04": ("Every recorded tx.miter result (self, copy, fan-in-limited, mutated and arbitrary pairs from TLC-enumerated G1/G2 and "
             "random circuits; startpoint/endpoint choices None, all, subsets, singletons) is judged by TLC: inputs = tied "
             "startpoints, output sat, truth table of sat = union of per-endpoint differences with untied startpoints independent; "
